@@ -158,7 +158,7 @@ class Scheduler:
             if not legal:
                 raise HarnessError("choices() called with no positive weight")
         else:
-            legal = list(range(n))
+            legal = range(n)        # lazy: randint(0, 2**30) must not materialise a list
         sc = self._scripted()
         if sc is not None:
             if sc[0] == 'i' and isinstance(sc[1], int) and sc[1] in legal:
@@ -368,12 +368,22 @@ class RandomProxy:
         self.streams.append(seed)
         return r
 
+    _MODULE_LEVEL = ('random', 'choice', 'choices', 'shuffle', 'randint', 'randrange', 'sample', 'uniform', 'getrandbits')
+
     def __getattr__(self, name):
         if name.startswith('__'):
             raise AttributeError(name)
         self.global_touches.append(name)
         if self._on_global is not None:
             self._on_global(name)
+        if not self._faithful and name in self._MODULE_LEVEL:
+            # the code uses the module-level functions (no seed was given): in simulation the "global generator"
+            # is one more scheduler-owned stream, so un-seeded paths are explored and replayed like seeded ones
+            g = self.__dict__.get('_global')
+            if g is None:
+                g = SimRandom(self._sched, None)
+                self.__dict__['_global'] = g
+            return getattr(g, name)
         return getattr(_pyrandom, name)
 
 
